@@ -214,9 +214,24 @@ unsafe impl GlobalAlloc for Tracker {
     }
 }
 
+/// Debugging aid: `A10SIM_TRACE_ALLOC=<size>` prints a backtrace for every
+/// non-harness allocation of that size.
+static TRACE_SIZE: std::sync::atomic::AtomicUsize = std::sync::atomic::AtomicUsize::new(usize::MAX);
+
+pub fn init_debug() {
+    if let Some(n) = std::env::var("A10SIM_TRACE_ALLOC").ok().and_then(|s| s.parse().ok()) {
+        TRACE_SIZE.store(n, Ordering::Relaxed);
+    }
+}
+
 fn record_alloc(addr: usize, layout: Layout) {
     ALLOCS.fetch_add(1, Ordering::Relaxed);
     let scope = scope();
+    if scope != Scope::Harness && layout.size() == TRACE_SIZE.load(Ordering::Relaxed) {
+        let was = IN_TRACKER.try_with(|c| c.replace(true)).unwrap_or(true);
+        eprintln!("ALLOC of {} bytes in {:?} scope:\n{}", layout.size(), scope, std::backtrace::Backtrace::force_capture());
+        let _ = IN_TRACKER.try_with(|c| c.set(was));
+    }
     with_state(|s| {
         s.seq += 1;
         let block = Block {
